@@ -390,6 +390,60 @@ def degenerate_fits(ctx):
                 ctx.oracle_fail(case, {'what': 'unexpected exception', 'got': res[0]})
 
 
+def weighted_degenerate_fits(ctx):
+    """enough sources but too few with a positive effective weight (zeros in the image weights, in the
+    reference weights, or complementary in both): a degenerate configuration the single-shot fitters must
+    refuse (ValueError / NotEnoughPointsError / SingularMatrixError) instead of returning parameters"""
+    from tweakwcs import linearfit
+    rng = ctx.rng
+    npr = np.random.default_rng(rng.getrandbits(32))
+    fns = {'general': linearfit.fit_general, 'rscale': linearfit.fit_rscale,
+           'rshift': linearfit.fit_rshift, 'shift': linearfit.fit_shifts}
+    minobj = {'shift': 1, 'rshift': 2, 'rscale': 2, 'general': 3}
+    for _ in range(ctx.n(60, 800)):
+        geom = rng.choice(['general', 'general', 'rscale', 'rshift', 'shift'])
+        n = rng.randint(minobj[geom] + 1, 9)
+        uv = npr.uniform(-500, 500, (n, 2))
+        a = np.deg2rad(rng.uniform(-3, 3))
+        xy = uv.dot(np.array([[np.cos(a), np.sin(a)], [-np.sin(a), np.cos(a)]])) + npr.uniform(-5, 5, 2) + \
+            npr.normal(0, 0.05, (n, 2))
+        npos = rng.randint(0, minobj[geom] - 1)          # sources that keep a positive effective weight
+        keep = set(rng.sample(range(n), npos))
+        mode = rng.choice(['wxy', 'wuv', 'both', 'complementary'])
+        wxy = np.array([rng.uniform(0.3, 3.0) for _ in range(n)])
+        wuv = np.array([rng.uniform(0.3, 3.0) for _ in range(n)])
+        for i in range(n):
+            if i in keep:
+                continue
+            if mode == 'wxy':
+                wxy[i] = 0.0
+            elif mode == 'wuv':
+                wuv[i] = 0.0
+            elif mode == 'both':
+                wxy[i] = wuv[i] = 0.0
+            elif rng.random() < 0.5:
+                wxy[i] = 0.0
+            else:
+                wuv[i] = 0.0
+        args = {'wxy': (wxy, None), 'wuv': (None, wuv)}.get(mode, (wxy, wuv))
+        case = {'op': 'degenerate-weights', 'fitgeom': geom, 'n': n, 'positive': npos, 'mode': mode,
+                'xy': xy.tolist(), 'uv': uv.tolist(), 'wxy': None if args[0] is None else args[0].tolist(),
+                'wuv': None if args[1] is None else args[1].tolist()}
+        ctx.case(case, nontrivial=True, branch='degenerate-weights:%s:%s' % (geom, mode))
+        try:
+            fit = fns[geom](xy, uv, args[0], args[1])
+        except (ValueError, linearfit.NotEnoughPointsError, linearfit.SingularMatrixError):
+            continue
+        except Exception as e:   # noqa
+            ctx.oracle_fail(case, {'what': 'unexpected exception', 'got': type(e).__name__})
+            continue
+        ctx.oracle_fail(case, {'what': 'only %d of %d sources have a positive effective weight (minimum %d for %s): '
+                                       'the fitter returned parameters instead of raising'
+                                       % (npos, n, minobj[geom], geom),
+                               'matrix': np.asarray(fit['matrix'], dtype=float).tolist(),
+                               'shift': np.asarray(fit['shift'], dtype=float).tolist()})
+
+
 def numpy_path(ctx):
     """the fall-back path of inv (platforms where long double is not wider than double): the same
     oracle on regular, exactly singular, non-finite and non-square input; no model correspondence
@@ -456,6 +510,7 @@ def run(ctx):
     outs = ctx.driver(lines)
     compare(ctx, outs, pending)
     degenerate_fits(ctx)
+    weighted_degenerate_fits(ctx)
 
 
 def replay(ctx, payload):
